@@ -966,4 +966,84 @@ theorem expect_congr_ge_min (bg : List Rat) {rows : List (List Int)} {f h : Int 
     simp only [List.map_cons, List.sum_cons]
     omega
 
+/-! ### every contributed key is a key of the normalized map; linearity of `expect` -/
+
+theorem combineAux_key {k0 : Int} {v : Rat} {t : List (Int × Rat)} {k : Int}
+    (h : k0 = k ∨ ∃ e ∈ t, e.1 = k) : ∃ e ∈ combineAux k0 v t, e.1 = k := by
+  induction t generalizing k0 v with
+  | nil =>
+    rcases h with h | ⟨e, he, _⟩
+    · exact ⟨(k0, v), by simp [combineAux], h⟩
+    · simp at he
+  | cons a t ih =>
+    obtain ⟨k', v'⟩ := a
+    unfold combineAux
+    split
+    · next heq =>
+      apply ih
+      rcases h with h | ⟨e, he, hk⟩
+      · exact Or.inl h
+      · rcases List.mem_cons.1 he with he | he
+        · subst he; exact Or.inl (by rw [← heq]; exact hk)
+        · exact Or.inr ⟨e, he, hk⟩
+    · next hne =>
+      rcases h with h | ⟨e, he, hk⟩
+      · exact ⟨(k0, v), List.mem_cons_self, h⟩
+      · obtain ⟨e', he', hk'⟩ := ih (k0 := k') (v := v') (by
+          rcases List.mem_cons.1 he with he | he
+          · subst he; exact Or.inl hk
+          · exact Or.inr ⟨e, he, hk⟩)
+        exact ⟨e', List.mem_cons_of_mem _ he', hk'⟩
+
+theorem normalize_key {l : List (Int × Rat)} {k : Int} (h : ∃ e ∈ l, e.1 = k) :
+    ∃ e ∈ normalize l, e.1 = k := by
+  unfold normalize
+  have hperm := List.mergeSort_perm l (fun a b => decide (a.1 ≤ b.1))
+  obtain ⟨e, he, hk⟩ := h
+  have he' : e ∈ l.mergeSort (fun a b => decide (a.1 ≤ b.1)) := hperm.mem_iff.2 he
+  generalize l.mergeSort (fun a b => decide (a.1 ≤ b.1)) = s at he'
+  cases s with
+  | nil => simp at he'
+  | cons a t =>
+    obtain ⟨k0, v0⟩ := a
+    simp only [combine]
+    apply combineAux_key
+    rcases List.mem_cons.1 he' with h | h
+    · subst h; exact Or.inl hk
+    · exact Or.inr ⟨e, h, hk⟩
+
+/-- the key `max + 1` (the bucket) is always present -/
+theorem distribution_bucket_key (bg : List Rat) {im : List (List Int)} (hne : im ≠ [])
+    (min max : Int) : ∃ e ∈ distribution im bg min max, e.1 = max + 1 := by
+  cases im with
+  | nil => exact absurd rfl hne
+  | cons row0 rest =>
+    simp only [distribution]
+    exact normalize_key ⟨(max + 1, Num.zero), List.mem_cons_self, rfl⟩
+
+theorem expect_add {σ : Type} [Add σ] [Zero σ] (bg : List Rat) (rows : List (List σ))
+    (f h : σ → Rat) :
+    expect bg rows (fun s => f s + h s) = expect bg rows f + expect bg rows h := by
+  induction rows generalizing f h with
+  | nil => rfl
+  | cons r rs ih =>
+    simp only [expect]
+    rw [← List.sum_map_add]
+    congr 1
+    apply List.map_congr_left
+    intro xb _
+    rw [ih]; ring
+
+theorem tailFrom_eq_of_no_key {Q : List (Int × Rat)} {lo hi : Int}
+    (h : ∀ e ∈ Q, e.1 < lo ∨ hi ≤ e.1) (hle : lo ≤ hi) : tailFrom Q lo = tailFrom Q hi := by
+  rw [tailFrom_eq, tailFrom_eq]
+  apply wsum_congr
+  intro e he
+  rcases h e he with h1 | h1
+  · have a : ¬ lo ≤ e.1 := by omega
+    have b : ¬ hi ≤ e.1 := by omega
+    simp [a, b]
+  · have a : lo ≤ e.1 := by omega
+    simp [a, h1]
+
 end LMV.Tfm
